@@ -10,6 +10,7 @@ import (
 	"math/rand"
 	"os"
 	"runtime"
+	"strings"
 	"sync"
 	"sync/atomic"
 	"testing"
@@ -23,6 +24,7 @@ import (
 
 	"verifharness/internal/kvmodel"
 	"verifharness/internal/report"
+	"verifharness/internal/shard"
 )
 
 func TestMain(m *testing.M) { os.Exit(report.ExitCode(m.Run())) }
@@ -215,58 +217,14 @@ func TestCheck(t *testing.T) {
 	depth := run.Pick(3, 4)
 	run.Note("depth", depth)
 
-	// ---------------- in-memory backend: synctest bubbles ----------------
-	t.Run("inmem", func(t *testing.T) {
-		var cases []kase
-		cases = append(cases, matrix("inmem")...)
-		alpha := alphabet("inmem")
-		var rec func(ops []Op)
-		rec = func(ops []Op) {
-			if len(ops) == depth {
-				cases = append(cases, kase{Backend: "inmem", Kind: "seq", Ops: ops})
-				return
-			}
-			for _, o := range alpha {
-				rec(append(append([]Op(nil), ops...), o))
-			}
+	// ---------------- in-memory backend: synctest bubbles, one per child process ----------------
+	// (the library's global version generator holds a mutex that must not be shared between bubbles)
+	for c := range shard.Run(run, "TestChild", "inmem", runtime.NumCPU(), 40*time.Minute) {
+		if strings.HasPrefix(c, "ft:") {
+			continue
 		}
-		rec(nil)
-		for i := 0; i < run.Pick(300, 5000); i++ {
-			cases = append(cases, randomCase("inmem", run.Seed(), i))
-		}
-		nshards := runtime.NumCPU()
-		for s := 0; s < nshards; s++ {
-			s := s
-			t.Run(fmt.Sprint("shard", s), func(t *testing.T) {
-				t.Parallel()
-				states := map[string]struct{}{}
-				ft := map[string]int64{}
-				synctest.Test(t, func(t *testing.T) {
-					for i := s; i < len(cases); i += nshards {
-						k := cases[i]
-						run.Eval(1)
-						run.Add("sequences_inmem_"+k.Kind, 1)
-						if v := runCase(kvmodel.InmemBubble(), k, states, ft); v != nil {
-							run.Violation(v.Sig, v.What, k)
-						}
-					}
-					// (ii) parked waiter, then the record expires
-					if s < 4 {
-						for _, exp := range []int{1, 2, 4} {
-							for nw := 1; nw <= 3; nw++ {
-								run.Eval(1)
-								run.Add("parked_waiter_scenarios_inmem", 1)
-								if v := parkedWaiterInmem(exp, nw); v != nil {
-									run.Violation(v.Sig, v.What, map[string]any{"scenario": "parked-waiter", "backend": "inmem", "exp": exp, "waiters": nw})
-								}
-							}
-						}
-					}
-				})
-				sh.merge(states, ft)
-			})
-		}
-	})
+		sh.states[c] = struct{}{}
+	}
 
 	// ---------------- Redis backend: miniredis, FastForward ----------------
 	t.Run("redis", func(t *testing.T) {
@@ -326,6 +284,70 @@ func TestCheck(t *testing.T) {
 	run.Sample(matrix("inmem")[1234])
 	run.Sample(matrix("redis")[777])
 	run.Sample(randomCase("inmem", run.Seed(), 0))
+}
+
+func inmemCases(run *report.Run) []kase {
+	depth := run.Pick(3, 4)
+	var cases []kase
+	cases = append(cases, matrix("inmem")...)
+	alpha := alphabet("inmem")
+	var rec func(ops []Op)
+	rec = func(ops []Op) {
+		if len(ops) == depth {
+			cases = append(cases, kase{Backend: "inmem", Kind: "seq", Ops: ops})
+			return
+		}
+		for _, o := range alpha {
+			rec(append(append([]Op(nil), ops...), o))
+		}
+	}
+	rec(nil)
+	for i := 0; i < run.Pick(300, 5000); i++ {
+		cases = append(cases, randomCase("inmem", run.Seed(), i))
+	}
+	return cases
+}
+
+// TestChild runs one shard of the in-memory part inside a single bubble (child process of TestCheck).
+func TestChild(t *testing.T) {
+	idx, total, _, ok := shard.Child()
+	if !ok {
+		t.Skip("not a shard child")
+	}
+	run := report.New("C06", "exploration")
+	res := shard.NewResult()
+	cases := inmemCases(run)
+	states := map[string]struct{}{}
+	ft := map[string]int64{}
+	synctest.Test(t, func(t *testing.T) {
+		for i := idx; i < len(cases); i += total {
+			k := cases[i]
+			res.Evals++
+			res.Counters["sequences_inmem_"+k.Kind]++
+			if v := runCase(kvmodel.InmemBubble(), k, states, ft); v != nil {
+				res.Violation(v.Sig, v.What, k)
+			}
+		}
+		// (ii) parked waiter, then the record expires
+		if idx < 4 {
+			for _, exp := range []int{1, 2, 4} {
+				for nw := 1; nw <= 3; nw++ {
+					res.Evals++
+					res.Counters["parked_waiter_scenarios_inmem"]++
+					if v := parkedWaiterInmem(exp, nw); v != nil {
+						res.Violation(v.Sig, v.What, map[string]any{"scenario": "parked-waiter", "backend": "inmem", "exp": exp, "waiters": nw})
+					}
+				}
+			}
+		}
+	})
+	for s := range states {
+		res.Classes = append(res.Classes, s)
+	}
+	for k, n := range ft {
+		res.Counters["first_touch_inmem_"+k] = n
+	}
+	shard.Emit(res)
 }
 
 func randomCase(backend string, seed int64, i int) kase {
